@@ -23,6 +23,7 @@ var (
 	errMalformed       = errors.New("malformed rtpdump")
 	errPayloadTooLarge = errors.New("rtpdump: payload does not fit the 16-bit record length")
 	errOffsetRange     = errors.New("rtpdump: offset does not fit 32 bits of milliseconds")
+	errEmptyRTP        = errors.New("rtpdump: an RTP record needs a payload, packet length 0 marks RTCP")
 )
 
 // Header is the binary header at the top of the RTPDump file. It contains
@@ -95,6 +96,9 @@ type Packet struct {
 func (p Packet) Marshal() ([]byte, error) {
 	if len(p.Payload) > math.MaxUint16-pktHeaderLen {
 		return nil, errPayloadTooLarge
+	}
+	if !p.IsRTCP && len(p.Payload) == 0 {
+		return nil, errEmptyRTP
 	}
 	if p.Offset < 0 || p.Offset/time.Millisecond > math.MaxUint32 {
 		return nil, errOffsetRange
